@@ -57,7 +57,7 @@ def replay_rotate(ctx, rnd, st, wlo, whi, idx, pid='C15'):
     t = rnd.choice([0, 0, 5, -300])
     if k == 0 and rnd.random() < (0.6 if s['k'] == 'polygon' else 0.3):
         t = rnd.choice([300000, -2 ** 20, 2 ** 23])        # far from the origin: the pivot is then 'close' to the centre in relative terms only
-    fr = geom.Frame(U, scale, float(t), float(-2 * t), rnd.randint(0, 5))
+    fr = geom.Frame(U, scale, float(t), float(-2 * t), rnd.randint(0, 5), ints=(idx % 5 == 3 and k == 0))
     fr2 = geom.Frame(U * e[2], scale, fr.tx, fr.ty, 0)
     try:
         region = geom.build(s, fr)
